@@ -47,6 +47,9 @@ class Aggregator:
                     self.c['one_preemption_fired'] += 1
                 elif s['fired'] is False:
                     self.c['one_preemption_beyond_end_of_call'] += 1
+                self.c['fault:clock_jumps_injected'] += s.get('clock_jumps', 0)
+                self.c['probe:clock_reads_by_library'] += s.get('clock_reads', 0)
+                self.c['simulated_timeouts_fired'] += s.get('timeouts_fired', 0)
                 if s.get('killed'):
                     self.c['fault:thread_call_killed_midway'] += 1
                 if s['history_dependence']:
@@ -63,6 +66,8 @@ class Aggregator:
                 self.c['fault:caller_mutation_applied_to_live_object'] += s['mut_applied']
                 self.c['fault:call_raised_partway(uninjected)'] += s['raised']
                 self.c['fault:argument_container_recycled_at_same_address'] += s.get('recycled', 0)
+                self.c['fault:clock_jumps_injected'] += s.get('clock_jumps', 0)
+                self.c['probe:clock_reads_by_library'] += s.get('clock_reads', 0)
                 self.c['start:' + s['conf']['start']] += 1
                 self.c['mix:' + s['conf']['mix']] += 1
                 self.c['scenario:' + s['conf'].get('scenario', 'random')] += 1
